@@ -181,8 +181,10 @@ func propDefs() map[string]propDef {
 		Explain: "postcondition of the real toAuditEvent: type UserAction, component auditd, timestamp == the audit event's, auditId == its session, outcome succeeded iff Result == success, metadata action/how/object from the summary, process_args present iff the event has arguments, subjects a fresh copy equal to the login's (loop invariant of the copy loop), source and target the login's; frame: nothing reachable from the login or the audit event is modified; the same relation is asserted at every EventWriter.Write of the package",
 	}
 	m["C16"] = propDef{ID: "C16", Level: "proof",
-		Units: trk(nil, []string{`^ensures:(added|open)`}, nil, nil, all, all),
+		Units: append(trk(nil, []string{`^ensures:(added|open)`}, nil, nil, all, all),
+			u("processors/auditd.(*Auditd).Read", `^assert_at:`, `^inv-`, `^pre:`, `^selects:staleDataTicker`)),
 		Assume: []string{"time.Time.Before is a strict order on instants (assumed contract)", "the ticker of Auditd.Read fires about once per staleDataCleanupInterval (real time, not decided)"},
+		// Read: both cleanups are called on the ticker arm with cut-off == now - 1 minute, and the ticker period is the same constant
 		Explain: "whole-view postconditions of both cleanup operations, proved with deletion during map iteration: the surviving keys are exactly the previous keys that are correlated or not older than the cut-off (sessions), resp. whose login is not older than the cut-off (parked logins); surviving values, all user fields, the other map and the output are unchanged; TrackerInv is preserved",
 	}
 	m["C06"] = propDef{ID: "C06", Level: "proof",
